@@ -457,7 +457,7 @@ def replay_part(ctx, rng, focus):
         sub, sub16 = th[0::2], th[1::2]
     # exhaustive ordered pairs over a small cheap alphabet, enumerated by TLC (thorough)
     pair_hists = []
-    if ctx.tier == "thorough":
+    if ctx.tier == "thorough" and not focus:
         small = [by_c[c] for c in ("proximity|dflt|f8n", "proximity|v1|f8n", "allocation|v1|f8n", "focal_mean|dflt|f8n",
                                    "focal_mean|v2|f8n", "zonal_stats|dflt|f8n", "zonal_stats|v2|f8n", "perlin|dflt|f4n",
                                    "perlin|v2|f4n", "bump|dflt|f8n", "polygonize|dflt|i4n", "polygonize|dflt|f8n")]
